@@ -28,7 +28,7 @@ import (
 
 // generous guards: the machine is shared; an expired guard is an oracle failure ("hang").
 var (
-	waitGuard = 20 * time.Second
+	waitGuard = 10 * time.Second
 	holdGuard = 4 * time.Second
 )
 
@@ -65,6 +65,7 @@ type world struct {
 	release chan struct{}
 	parkWg  sync.WaitGroup
 	lateOps map[int]bool // instance ids accepted after a `run` op was issued
+	timedOut atomic.Bool // a guard expired in this case: later guards are short
 	ranRun  bool
 }
 
@@ -91,7 +92,7 @@ func init() {
 		w.parked <- struct{}{}
 		select {
 		case <-w.release:
-		case <-time.After(waitGuard):
+		case <-time.After(w.guard()):
 			w.log("timeout")
 		}
 	}
@@ -105,7 +106,19 @@ func newWorld(seq bool) *world {
 	return w
 }
 
+// guard is generous until the first expiry in a case; after that the case only has to end.
+func (w *world) guard() time.Duration {
+	if w.timedOut.Load() {
+		return 300 * time.Millisecond
+	}
+
+	return waitGuard
+}
+
 func (w *world) log(text string) {
+	if text == "timeout" {
+		w.timedOut.Store(true)
+	}
 	t := w.clk.Add(1)
 	w.mu.Lock()
 	w.evs = append(w.evs, event{t, text})
@@ -183,7 +196,7 @@ func (w *world) afterSeen(in *inst) {
 	case "g": // gated: returns only when kicked
 		select {
 		case <-in.finish:
-		case <-time.After(waitGuard):
+		case <-time.After(w.guard()):
 			w.log("timeout")
 		}
 	case "l": // lingers until Run has returned (bounded)
@@ -276,7 +289,7 @@ func contains(xs []string, x string) bool {
 
 // quiesce (sequential cases): every instance whose handler is due to return has been cleaned up.
 func (w *world) quiesce() bool {
-	return waitUntil(waitGuard, func() bool {
+	return waitUntil(w.guard(), func() bool {
 		names := w.runningNames()
 		for _, in := range w.snapshotInsts() {
 			// a spawned goroutine (running flag set) must have entered its handler
@@ -318,7 +331,7 @@ func (w *world) guarded(what string, f func()) string {
 	select {
 	case <-done:
 		return "ok"
-	case <-time.After(waitGuard):
+	case <-time.After(w.guard()):
 		w.log("timeout")
 
 		return "timeout"
@@ -454,7 +467,7 @@ func (w *world) exec(r *rec, op string) string {
 		in.finReq.Store(true)
 		in.finOnce.Do(func() { close(in.finish) })
 		if f[0] == "fin" && in.started.Load() {
-			if !waitUntil(waitGuard, func() bool { return in.returned.Load() }) {
+			if !waitUntil(w.guard(), func() bool { return in.returned.Load() }) {
 				w.log("timeout")
 				ans = "timeout"
 			}
@@ -490,7 +503,7 @@ func (w *world) exec(r *rec, op string) string {
 			w.mu.Unlock()
 			w.spawn(w.run)
 			// let Run get past Start and its WaitGroup snapshot before the script goes on
-			waitUntil(waitGuard, func() bool { return w.d.IsRunning() || w.d.IsStopped() })
+			waitUntil(w.guard(), func() bool { return w.d.IsRunning() || w.d.IsStopped() })
 			time.Sleep(3 * time.Millisecond)
 		default:
 			w.spawn(func() { w.exec(r, rest) })
@@ -502,7 +515,7 @@ func (w *world) exec(r *rec, op string) string {
 		w.spawn(func() { defer w.parkWg.Done(); w.bw(name, order, kind) })
 		select {
 		case <-w.parked:
-		case <-time.After(waitGuard):
+		case <-time.After(w.guard()):
 			hookArmed.Store(0)
 			w.log("timeout")
 			ans = "timeout"
@@ -510,7 +523,7 @@ func (w *world) exec(r *rec, op string) string {
 	case "release":
 		select {
 		case w.release <- struct{}{}:
-		case <-time.After(waitGuard):
+		case <-time.After(w.guard()):
 			ans = "noparked"
 		}
 	case "waitpark":
@@ -518,7 +531,7 @@ func (w *world) exec(r *rec, op string) string {
 		go func() { w.parkWg.Wait(); close(done) }()
 		select {
 		case <-done:
-		case <-time.After(waitGuard):
+		case <-time.After(w.guard()):
 			w.log("timeout")
 			ans = "timeout"
 		}
@@ -529,7 +542,7 @@ func (w *world) exec(r *rec, op string) string {
 
 			break
 		}
-		if !waitUntil(waitGuard, func() bool { return in.seen.Load() }) {
+		if !waitUntil(w.guard(), func() bool { return in.seen.Load() }) {
 			w.log("timeout")
 			ans = "timeout"
 		}
@@ -540,7 +553,7 @@ func (w *world) exec(r *rec, op string) string {
 
 			break
 		}
-		if !waitUntil(waitGuard, func() bool { return in.started.Load() }) {
+		if !waitUntil(w.guard(), func() bool { return in.started.Load() }) {
 			w.log("timeout")
 			ans = "timeout"
 		}
@@ -551,7 +564,7 @@ func (w *world) exec(r *rec, op string) string {
 		go func() { w.bg.Wait(); close(done) }()
 		select {
 		case <-done:
-		case <-time.After(waitGuard):
+		case <-time.After(w.guard()):
 			w.log("timeout")
 			ans = "timeout"
 		}
@@ -621,14 +634,14 @@ func (w *world) finishCase() []string {
 	}()
 	select {
 	case <-done:
-	case <-time.After(waitGuard):
+	case <-time.After(w.guard()):
 		w.log("timeout")
 	}
 	bgDone := make(chan struct{})
 	go func() { w.bg.Wait(); close(bgDone) }()
 	select {
 	case <-bgDone:
-	case <-time.After(waitGuard):
+	case <-time.After(w.guard()):
 		w.log("timeout")
 	}
 	w.mu.Lock()
@@ -651,6 +664,9 @@ func runCase(script []string) *caseResult {
 	for _, op := range script {
 		if strings.HasPrefix(op, "mode ") {
 			continue
+		}
+		if w.timedOut.Load() {
+			break // something hung: the case only has to end
 		}
 		ans := w.exec(r, op)
 		r.Count("op:" + strings.Join(strings.Fields(op)[:min(2, len(strings.Fields(op)))], "-"))
